@@ -360,8 +360,18 @@ def spec_source(spec) -> str:
     return "\n".join(L) + "\n"
 
 
+def user_context(context_src: dict | None) -> dict | None:
+    """user context functions are carried as lambda source text: JSON-able, hence replayable"""
+    if not context_src:
+        return None
+    return {k: eval(v, {"np": np, "math": math}) for k, v in context_src.items()}  # noqa: S307 (our own literals)
+
+
 def build_model(spec, **kw):
     import irispie as ir
+    ctx_fns = user_context(spec.get("context_src"))
+    if ctx_fns:
+        kw = dict(kw, context=ctx_fns)
     with quiet():
         m = ir.Simultaneous.from_string(spec_source(spec), flat=spec.get("flat", False), **kw)
         m.assign(**spec["values"])
@@ -372,13 +382,21 @@ def build_model(spec, **kw):
 # reading a built model
 # ======================================================================================
 
-def model_info(m) -> dict:
+def opaque_tree(xtring: str):
+    """the tree of an xtring, or ("user",) when it calls a function outside the modelled language (user context)"""
+    try:
+        return tree_of_xtring(xtring)
+    except HarnessError:
+        return ("user",)
+
+
+def model_info(m, opaque=False) -> dict:
     inv = m._invariant
     desc = inv.dynamic_descriptor
     sv = desc.system_vectors
     eqs = {e.id: e for e in inv.dynamic_equations}
     order = list(sv.transition_eids) + list(sv.measurement_eids)
-    trees = {eid: tree_of_xtring(eqs[eid].xtring) for eid in order}
+    trees = {eid: (opaque_tree if opaque else tree_of_xtring)(eqs[eid].xtring) for eid in order}
     q2l = m.create_qid_to_logly()
     return dict(
         order=order, trees=trees, eqs=eqs,
@@ -981,12 +999,12 @@ def _fd_close(a, b, tol=2e-5):
     return bool(np.all(ok))
 
 
-def residual_fn(m, info):
+def residual_fn(m, info, extra_context=None):
     """residuals of the system equations, computed by equators.plain.PlainEquator (no differentiation involved)"""
     from irispie.equators.plain import PlainEquator
     from irispie.aldi import adaptations
     eqs = [info["eqs"][eid] for eid in info["order"]]
-    pe = PlainEquator(eqs, context=adaptations.add_function_adaptations_to_context(None))
+    pe = PlainEquator(eqs, context=adaptations.add_function_adaptations_to_context(dict(extra_context or {})))
 
     def f(arr, col):
         with np.errstate(all="ignore"):
@@ -1012,12 +1030,16 @@ def falsify_systemize(mm, fails, info_counts, key_prefix="systemize"):
     src = spec_source(mm.spec)
     inp = {"source": src, "assign": mm.spec["values"], "flat": bool(mm.spec.get("flat", False))}
     repro = "m = irispie.Simultaneous.from_string(source, flat=flat); m.assign(**assign); m.systemize()"
+    if mm.spec.get("context_src"):
+        inp["context_src"] = mm.spec["context_src"]
+        repro = ("m = irispie.Simultaneous.from_string(source, flat=flat, context={name: eval(src) for name, src in "
+                 "context_src.items()}); m.assign(**assign); m.systemize()")
     if "rejected" in o:
         info_counts["rejected"] += 1
         return
     if "exc" in o:
         return
-    f = residual_fn(m, info)
+    f = residual_fn(m, info, user_context(mm.spec.get("context_src")))
     arr, off = mm.arr, mm.off
     try:
         f(arr, off)
@@ -1100,6 +1122,8 @@ def falsify_systemize(mm, fails, info_counts, key_prefix="systemize"):
 def _culprit(t) -> str:
     """names of the functions / special operators occurring in a tree: a stable key for a failing call shape"""
     acc = set()
+    if t == ("user",):
+        return "user-function"
 
     def walk(u):
         if u[0] == "f1" or u[0] == "f2" or u[0] == "f2d":
@@ -1141,8 +1165,10 @@ def falsify_steady(mm, fails, info_counts):
     try:
         _, arr, off = steady_point(ev)
         for e in eqs:
-            t = tree_of_xtring(e.xtring)
+            t = opaque_tree(e.xtring)
             toks = tree_vars(t)
+            if t == ("user",):
+                continue
             for k in (0, 1):
                 num_eval(t, {(q, s): float(arr[q, off + s + k]) for (q, s) in toks}, margin=0.08)
     except (Inadmissible, IndexError, OverflowError, ZeroDivisionError, ValueError, TypeError):
@@ -1160,9 +1186,10 @@ def falsify_steady(mm, fails, info_counts):
         kind = "flat" if type(ev).__name__.startswith("Flat") else "nonflat"
         block = "t" if r < len(eqs) else "t+k"
         fails.append(Failure(
-            f"steady:{kind}:{block}:{_culprit(tree_of_xtring(eqs[r % len(eqs)].xtring))}",
+            f"steady:{kind}:{block}:{_culprit(opaque_tree(eqs[r % len(eqs)].xtring))}",
             f"steady Jacobian ({kind}) entry [{r},{c}] (residual block {block}) is not the derivative of eval_func",
-            {"source": spec_source(mm.spec), "assign": mm.spec["values"], "flat": mm.spec["flat"]},
+            dict({"source": spec_source(mm.spec), "assign": mm.spec["values"], "flat": mm.spec["flat"]},
+                 **({"context_src": mm.spec["context_src"]} if mm.spec.get("context_src") else {})),
             float(J[r, c]), float(W[r, c]),
             "m = irispie.Simultaneous.from_string(source, flat=flat); m.assign(**assign); m.steady(split_into_blocks=False) "
             "-> SteadyEvaluator.eval_jacob(init) vs central differences of eval_func"))
@@ -1177,7 +1204,9 @@ def falsify_stacked(mm, rng, fails, info_counts, force_terminal=None):
     if force_terminal:
         terminal = force_terminal
         nper = rng.randint(2, 4)
-    elif rng.random() < 0.35 and mm.info["max_shift"] > 0:
+    elif not mm.spec.get("context_src") and rng.random() < 0.35 and mm.info["max_shift"] > 0:
+        # (not for user context functions: their trees are opaque to the admissibility margins below, and a solved
+        #  steady state may be a degenerate point where the two-sided quotient itself is meaningless)
         try:
             with quiet():
                 m.steady()
@@ -1211,6 +1240,8 @@ def falsify_stacked(mm, rng, fails, info_counts, force_terminal=None):
         arr = np.array(data, dtype=float)
         for eid in info["teids"]:
             t = info["trees"][eid]
+            if t == ("user",):
+                continue
             toks = tree_vars(t)
             for c in range(base, base + nper):
                 num_eval(t, {(q, s): float(arr[q, s + c]) for (q, s) in toks}, margin=0.08)
@@ -1232,7 +1263,9 @@ def falsify_stacked(mm, rng, fails, info_counts, force_terminal=None):
             f"stacked:{terminal}:{_culprit(info['trees'][eid])}",
             f"stacked-time Jacobian entry [{r},{c}] (equation `{info['eqs'][eid].human}`, period {r // neq}, terminal={terminal}) "
             "is not the derivative of eval_func",
-            {"source": spec_source(mm.spec), "assign": mm.spec["values"], "periods": nper, "terminal": terminal},
+            dict({"source": spec_source(mm.spec), "assign": mm.spec["values"], "periods": nper, "terminal": terminal,
+                  "flat": bool(mm.spec.get("flat", False))},
+                 **({"context_src": mm.spec["context_src"]} if mm.spec.get("context_src") else {})),
             float(J[r, c]), float(W[r, c]),
             "m.simulate(db, span, method='stacked_time', terminal=...) -> evaluator.eval_jacob vs central differences of eval_func"))
 
@@ -1321,53 +1354,109 @@ STEADY_WITNESS = {"xs": ["x0", "x1", "x2"], "ps": ["p0", "p1"], "ys": [], "logs"
                   "flat": False}
 
 
-def user_function_checks(ctx, fails, info_counts):
-    """functions from the model context are differentiated by two-sided quotients"""
-    import irispie as ir
-    rng = ctx.rng
-    funcs = {
-        "aff": (lambda a, b: 2.0 * a - 0.5 * b + 1.0, 1e-7),
-        "smooth": (lambda a, b: a * a * b + np.sin(a), 1e-4),
-    }
-    for name, (fn, tol) in funcs.items():
-        for _ in range(ctx.scale(3, 30)):
-            spec = {"xs": ["x0", "x1"], "ps": ["p0"], "ys": [], "logs": ["x1"] if rng.random() < 0.5 else [],
-                    "teqs": [f"x0 = {name}(x0[-1], x1) + e0", f"x1 = {name}(x1[-1]*p0, 2) + e1"], "meqs": [],
-                    "values": {"x0": (_dy(rng, 0.75, 2.0), 0.0), "x1": (_dy(rng, 0.75, 2.0), 0.0 if True else 1.0), "p0": 0.5},
-                    "flat": True}
-            if spec["logs"]:
-                spec["values"]["x1"] = (spec["values"]["x1"][0], 1.0)
-            try:
-                with quiet():
-                    m = ir.Simultaneous.from_string(spec_source(spec), context={name: fn}, flat=True)
-                    m.assign(**spec["values"])
-                    s = m.systemize()
-            except Exception as e:  # noqa
-                info_counts["user_function_errors"] = info_counts.get("user_function_errors", 0) + 1
-                continue
-            inv = m._invariant
-            sv = inv.dynamic_descriptor.system_vectors
-            q2l = m.create_qid_to_logly()
-            from irispie.equators.plain import PlainEquator
-            eqs = [e for e in inv.dynamic_equations]
-            pe = PlainEquator(eqs, context={name: fn})
-            v = m._variants[0]
-            ncol = -inv._min_shift + 1 + inv._max_shift
-            arr = np.array(v.create_steady_array(q2l, num_columns=ncol, shift_in_first_column=inv._min_shift), dtype=float)
-            off = -inv._min_shift
+# user functions from the model context (finite_differentiators.py): every argument position may hold a numeric
+# literal (a plain Python number, skipped by the differentiator), a parameter, a variable occurrence or an expression
+USER_FUNCTIONS = {
+    "uaff2": ("lambda a, b: 2.0*a - 0.5*b + 1.0", 2),
+    "umix2": ("lambda a, b: a*a*b + np.sin(a)", 2),
+    "uaff3": ("lambda a, b, c: 2.0*a - 0.5*b + 0.25*c + 1.0", 3),
+    "blend": ("lambda w, p, q: w*p**2 + (1 - w)*q**3", 3),
+    "usm3": ("lambda a, b, c: np.exp(0.25*a)*b + b/c + a*c", 3),
+    "ufour": ("lambda a, b, c, d: a*b - c*d*d + a/d", 4),
+}
+ARG_KINDS = ("lit", "par", "var", "expr")
 
-            def f(a, col):
-                return np.array([float(u) for u in pe.eval(a, col)], dtype=float)
-            A = np.array(s.A)[:2]; B = np.array(s.B)[:2]
-            tv = [(t.qid, t.shift) for t in sv.transition_variables]
-            for c, tok in enumerate(tv):
-                want = fd_partial(f, arr, off, tok, q2l.get(tok[0], False), 2)[:2]
-                info_counts["user_function_cells"] = info_counts.get("user_function_cells", 0) + 2
-                if not np.all(np.abs(A[:, c] - want) <= tol * (1 + np.abs(want))):
-                    fails.append(Failure(f"user-function:{name}", f"derivative through the context function `{name}` is off",
-                                         {"source": spec_source(spec), "assign": spec["values"]}, A[:, c].tolist(), want.tolist(),
-                                         "Simultaneous.from_string(source, context={...}).systemize()"))
-                    break
+
+def _user_arg(rng, kind, xs, ps):
+    if kind == "lit":
+        return repr(_dy(rng, 0.25, 1.75)) if rng.random() < 0.8 else str(rng.randint(1, 2))
+    if kind == "par":
+        return rng.choice(ps)
+    x = rng.choice(xs)
+    v = x + rng.choice(["", "", "[-1]", "[+1]"])
+    if kind == "var":
+        return v
+    return rng.choice([f"{v}*{rng.choice(ps)}", f"(0.5 + {v})", f"2*{v}", f"({v} + {rng.choice(xs)}[-1])"])
+
+
+def user_function_patterns(nargs):
+    """all assignments of argument kinds with at least one variable/expression argument"""
+    import itertools
+    return [p for p in itertools.product(ARG_KINDS, repeat=nargs) if any(k in ("var", "expr") for k in p)]
+
+
+def gen_user_spec(rng, name, pattern, pattern2=None) -> dict:
+    xs = ["x0", "x1"]
+    ps = ["p0", "p1"]
+    logs = ["x1"] if rng.random() < 0.4 else []
+    call1 = f"{name}({', '.join(_user_arg(rng, k, xs, ps) for k in pattern)})"
+    call2 = f"{name}({', '.join(_user_arg(rng, k, xs, ps) for k in (pattern2 or pattern[::-1]))})"
+    teqs = [f"x0 = 0.125*{call1} + e0", f"{'log(x1)' if logs and rng.random() < 0.5 else 'x1'} = 0.25*{call2} + p0*e1"]
+    values = {"x0": (_dy(rng, 0.75, 2.0), rng.choice([0.0, 0.0, 0.0625])),
+              "x1": (_dy(rng, 0.75, 2.0), rng.choice([1.0, 1.0, 1.0625]) if logs else rng.choice([0.0, 0.0625])),
+              "p0": _dy(rng, 0.5, 1.5), "p1": _dy(rng, 0.5, 1.5)}
+    return {"xs": xs, "ps": ps, "ys": [], "logs": logs, "teqs": teqs, "meqs": [], "values": values,
+            "flat": rng.random() < 0.5, "context_src": {name: USER_FUNCTIONS[name][0]},
+            "pattern": ",".join(pattern)}
+
+
+USER_WITNESSES = [
+    # a numeric literal BEFORE variable arguments (the differentiator must skip it without shifting positions)
+    ("blend", ("lit", "var", "var")), ("blend", ("lit", "lit", "var")), ("blend", ("par", "lit", "var")),
+    ("blend", ("var", "lit", "var")), ("uaff3", ("lit", "var", "expr")), ("usm3", ("lit", "par", "var")),
+    ("ufour", ("lit", "var", "lit", "var")), ("ufour", ("var", "lit", "lit", "expr")), ("umix2", ("lit", "var")),
+    ("uaff2", ("lit", "expr")), ("umix2", ("var", "lit")), ("blend", ("var", "var", "lit")),
+]
+
+
+def user_function_checks(ctx, fails, info_counts):
+    """functions from the model context are differentiated by two-sided quotients: systemize(), the steady and the
+    stacked-time Jacobians against central differences of the plain residual, for every placement of literal /
+    parameter / variable / expression arguments"""
+    rng = ctx.rng
+    todo = list(USER_WITNESSES)
+    for name, (_, nargs) in USER_FUNCTIONS.items():
+        pats = user_function_patterns(nargs)
+        if ctx.thorough:
+            todo += [(name, p) for p in pats for _ in range(3)]
+        elif nargs <= 3:
+            todo += [(name, p) for p in pats if "lit" in p or rng.random() < 0.3]
+        else:
+            todo += [(name, p) for p in rng.sample(pats, 24)]
+    info_counts["user_function_models"] = 0
+    info_counts["user_function_patterns"] = len({(n, p) for n, p in todo})
+    todo = [("blend", None)] + todo
+    for name, pattern in todo:
+        if pattern is None:       # fixed: a literal first, then two different variable occurrences
+            spec = {"xs": ["x0", "x1"], "ps": ["p0", "p1"], "ys": [], "logs": [],
+                    "teqs": ["x0 = 0.125*blend(0.25, x1, x0[-1]) + e0", "x1 = p0*x1[-1] + p1 + e1"], "meqs": [],
+                    "values": {"x0": (3.0, 0.0), "x1": (2.0, 0.0), "p0": 0.5, "p1": 1.0}, "flat": True,
+                    "context_src": {"blend": USER_FUNCTIONS["blend"][0]}, "pattern": "lit,var,var"}
+            pattern = ("lit", "var", "var")
+        else:
+            spec = gen_user_spec(rng, name, tuple(pattern))
+        try:
+            m = build_model(spec)
+            info = model_info(m, opaque=True)
+            arr, off = steady_data(m, info)
+        except Exception as e:  # noqa
+            info_counts["user_function_errors"] = info_counts.get("user_function_errors", 0) + 1
+            info_counts.setdefault("user_function_error_samples", [])
+            if len(info_counts["user_function_error_samples"]) < 3:
+                info_counts["user_function_error_samples"].append(f"{type(e).__name__}: {e}"[:120])
+            continue
+        mm = SimpleNamespace(spec=spec, m=m, info=info, rho=None, arr=arr, off=off)
+        before = info_counts["systemize_models"]
+        falsify_systemize(mm, fails, info_counts, key_prefix=f"user-function:{name}({spec['pattern']})")
+        info_counts["user_function_models"] += info_counts["systemize_models"] - before
+        n0 = len(fails)
+        if ctx.thorough or (name, tuple(pattern)) in USER_WITNESSES or rng.random() < 0.3:
+            falsify_steady(mm, fails, info_counts)
+            falsify_stacked(mm, rng, fails, info_counts)
+        for f_ in fails[n0:]:
+            f_.key = f"user-function:{name}({spec['pattern']}):" + f_.key
+        if len(fails) > 60:
+            break
 
 
 def falsify(ctx, hints):
@@ -1427,14 +1516,15 @@ def replay(ctx, failure: dict):
     import irispie as ir
     fails: list[Failure] = []
     counts = {"cells": 0, "systemize_models": 0, "steady_models": 0, "stacked_models": 0, "rejected": 0}
+    kw = {"context": user_context(inp["context_src"])} if inp.get("context_src") else {}
     with quiet():
-        m = ir.Simultaneous.from_string(src, flat=inp.get("flat", False))
+        m = ir.Simultaneous.from_string(src, flat=inp.get("flat", False), **kw)
         m.assign(**{k: (tuple(v) if isinstance(v, list) else v) for k, v in inp["assign"].items()})
-    info = model_info(m)
+    info = model_info(m, opaque=True)
     arr, off = steady_data(m, info)
     xs = [n for n in inp["assign"] if n.startswith("x")]
     spec = {"xs": sorted(xs), "ps": [], "ys": [], "logs": [], "teqs": [], "meqs": [], "values": inp["assign"],
-            "flat": inp.get("flat", False)}
+            "flat": inp.get("flat", False), "context_src": inp.get("context_src")}
     mm = SimpleNamespace(spec=spec, m=m, info=info, rho=None, arr=arr, off=off)
     # spec_source is only used for messages here
     global spec_source
@@ -1442,7 +1532,16 @@ def replay(ctx, failure: dict):
     spec_source = lambda s: src  # noqa
     try:
         key = failure.get("key", "")
-        if key.startswith("steady"):
+        prefix = ""
+        if key.startswith("user-function:") and (":steady:" in key or ":stacked:" in key):
+            cut = key.index(":steady:") if ":steady:" in key else key.index(":stacked:")
+            prefix, key = key[:cut + 1], key[cut + 1:]
+        elif key.startswith("user-function:"):
+            falsify_systemize(mm, fails, counts, key_prefix=key.rsplit(":", 2)[0])
+            key = None
+        if key is None:
+            pass
+        elif key.startswith("steady"):
             falsify_steady(mm, fails, counts)
         elif key.startswith("stacked"):
             for _ in range(6):
@@ -1451,6 +1550,9 @@ def replay(ctx, failure: dict):
             falsify_systemize(mm, fails, counts)
     finally:
         spec_source = orig
+    for f_ in fails:
+        if prefix:
+            f_.key = prefix + f_.key
     for f_ in fails:
         if f_.key == failure.get("key"):
             return f_
